@@ -12,9 +12,11 @@ import time
 import traceback
 
 from . import VERIF, REPO
-from .kernel import HarnessError, Violation
+from .kernel import HarnessError, RunTimeout, Violation
 from .rng import Rng, run_seed
 
+RUN_TIMEOUT_S = 60.0
+RUN_MEM_LIMIT = 6 << 30
 EVIDENCE_DIR = os.path.join(VERIF, "evidence")
 REPLAY_DIR = os.path.join(VERIF, "replays")
 FINDINGS_FILE = os.path.join(VERIF, "known_findings.txt")
@@ -66,6 +68,20 @@ def _merge_counts(dst, src):
 def run_block(prop, tier, verif_seed, indices, deadline):
     """Worker entry point."""
     faulthandler.enable()
+    import resource
+    import signal
+
+    try:
+        resource.setrlimit(resource.RLIMIT_AS, (RUN_MEM_LIMIT, RUN_MEM_LIMIT))
+    except (ValueError, OSError):
+        pass
+
+    def _alarm(*_a):
+        if os.environ.get("HGSIM_DEBUG_TIMEOUT"):
+            faulthandler.dump_traceback(all_threads=False)
+        raise RunTimeout()
+
+    signal.signal(signal.SIGALRM, _alarm)
     from . import import_library
 
     import_library()
@@ -79,12 +95,15 @@ def run_block(prop, tier, verif_seed, indices, deadline):
         if time.time() > deadline:
             agg["skipped"] += 1
             continue
+        signal.setitimer(signal.ITIMER_REAL, RUN_TIMEOUT_S)
         try:
             case, res = one_run(scen, tier, verif_seed, i)
-        except HarnessError:
-            raise
-        except Violation:
-            raise
+        except (RunTimeout, MemoryError, RecursionError) as e:
+            signal.setitimer(signal.ITIMER_REAL, 0)
+            raise HarnessError("run %d of %s (%s tier, VERIF_SEED=%s) hit the per-run watchdog: %s" % (
+                i, prop, tier, verif_seed, type(e).__name__))
+        finally:
+            signal.setitimer(signal.ITIMER_REAL, 0)
         agg["evaluations"] += 1
         agg["units"] += res.get("units", 1)
         agg["events"] += res.get("steps", 0)
@@ -249,6 +268,22 @@ def check(prop, tier, verif_seed, workers=16, budget=None, wall_cap=None, write_
         violations += r["violations"]
         dig = (dig + r["digest"]) % (1 << 96)
 
+    # ---- regression inputs: replay files of defects that were fixed (and of open findings)
+    regress_n = 0
+    rdir = os.path.join(VERIF, "findings", "regress")
+    if os.path.isdir(rdir):
+        for fn in sorted(os.listdir(rdir)):
+            if fn.startswith(prop + "-") and fn.endswith(".json"):
+                doc = json.load(open(os.path.join(rdir, fn)))
+                case = doc["case"]
+                case.setdefault("index", -1)
+                case.setdefault("seed", doc.get("seed", 0))
+                res = scen.execute(case)
+                regress_n += 1
+                agg["evaluations"] += 1
+                if res.get("violation") is not None:
+                    violations.append({"signature": res["violation"]["signature"], "violation": res["violation"],
+                                       "case": case, "size": res.get("steps", 0)})
     # ---- violations: group by signature
     open_findings, _fixed = load_findings()
     open_by_sig = {}
@@ -321,6 +356,7 @@ def check(prop, tier, verif_seed, workers=16, budget=None, wall_cap=None, write_
             "runs_skipped_by_wall_cap": agg["skipped"],
             "batch_digest": "%024x" % dig,
             "profiles": scen.profiles,
+            "regression_cases_replayed": regress_n,
         },
         "assumptions": scen.assumptions,
         "wall_s": round(wall, 2),
